@@ -1,10 +1,10 @@
 """C09 -- length code is a monotone bucketing of the input length, consistent with range()."""
-from .. import sym, tables
+from .. import engine, sym, tables
 from ..norm import n, P, C, V, ANY, match, call, binop, idx, table
 from . import common, cmpmodel
 
 ID = "C09"
-CONFIGS = {"quick": ["K0"], "thorough": ["K0", "K1", "K9"]}
+CONFIGS = {"quick": ["K0", "K21"], "thorough": ["K0", "K1", "K9", "K17", "K19", "K21"]}
 META = {
     "explanation": (
         "Static analysis (MIR + constant evaluator).  The 170-entry length table is compared by value with the "
@@ -32,7 +32,14 @@ def run(ctx, FS):
         ctx.rules[r]["exhaustive"] = True
         r = "R-09.2"
         ctx.rule(r, "clz bracket table: for every leading-zero class the slice T[I[c+1]..I[c]] brackets the global rank of every length in the class")
-        tables.clz_table(ctx, r, F, T)
+        bracketed = "length::ENCODED_INDICES_BY_LEADING_ZEROS" in F.consts
+        if bracketed:
+            tables.clz_table(ctx, r, F, T)
+        else:
+            # architectures without a cheap leading_zeros (e.g. riscv64 without Zbb): no bracket table, whole-table search (R-09.3)
+            ctx.instance(r)
+            ctx.ob(r, ("clz-table", "absent-on-this-architecture"), engine.target_of(F.key).split("-")[0] not in ("x86_64", "i686", "aarch64", "arm", "wasm32"),
+                   "the leading-zeros bracket table is not compiled for target %s, which the source lists as having it" % engine.target_of(F.key), cfg=F.key)
         ctx.rules[r]["exhaustive"] = True
         r = "R-09.3"
         ctx.rule(r, "encoder skeleton: 0 -> Some(0); len > MAX -> None; search T[I[clz+1]..I[clz]]; both arms bottom+i; TryFrom maps None to LengthIsTooLarge", "N")
@@ -58,8 +65,12 @@ def encoder(ctx, r, F, T):
     top = idx(IDX, clz)
     zero_c = binop("Eq", C(0), P(1))
     big_c = ("bin", "Lt", C(4224281216), P(1))
-    slice_ = ("call", "core::array::<impl core::ops::Index<I> for [T; N]>::index",
-              (("ref", TOP), ("agg", "adt:core::ops::Range::Range", (bottom, top))))
+    bracketed = "length::ENCODED_INDICES_BY_LEADING_ZEROS" in F.consts
+    if bracketed:
+        slice_ = ("call", "core::array::<impl core::ops::Index<I> for [T; N]>::index",
+                  (("ref", TOP), ("agg", "adt:core::ops::Range::Range", (bottom, top))))
+    else:
+        slice_ = ("call", "core::array::<impl [T; N]>::as_slice", (("ref", TOP),))
     bs = ("call", "core::slice::<impl [T]>::binary_search", (slice_, ("ref", P(1))))
     some = lambda v: ("agg", "adt:core::option::Option::Some", (("agg", "adt:length::FuzzyHashLengthEncoding::FuzzyHashLengthEncoding", (v,)),))
     want = {
@@ -94,14 +105,16 @@ def encoder(ctx, r, F, T):
             continue
         arm = {0: "Ok", 1: "Err"}.get(core[0][1])
         seen.add(arm)
-        want_ret = some(binop("Add", bottom, ("field", ("variant", bs, arm), 0)))
+        found = ("field", ("variant", bs, arm), 0)
+        want_ret = some(binop("Add", bottom, found) if bracketed else found)
         if ret != want_ret:
             ok = False
             msgs.append("arm %s returns %s" % (arm, sym.fmt(ret)))
     if seen != {"Ok", "Err"}:
         ok = False
     ctx.ob(r, ("LengthEncoding::new", "search-arms"), ok,
-           "the clz-restricted search does not have the reference shape bottom + binary_search(T[I[clz+1]..I[clz]], len) on both arms: %s" % msgs,
+           ("the clz-restricted search does not have the reference shape bottom + binary_search(T[I[clz+1]..I[clz]], len) on both arms: %s" if bracketed else
+            "the whole-table search does not have the reference shape binary_search(T, len) -> i on both arms: %s") % msgs,
            cfg=F.key, where=b.where())
     tb = [x for x in F.bodies if x.name == "try_from" and x.d.get("impl", "").startswith("<length::FuzzyHashLengthEncoding as")]
     ctx.instance(r)
